@@ -154,7 +154,11 @@ def rule_append_only(ctx):
     name, ty = fld
     muts = []
     shared = 0
+    from .panics import reachable_from, public_api
+    live = set(x.id for x in reachable_from(prog, public_api(prog) + [x for x in prog.nonderived_bodies() if x.impl_trait]))
     for b in prog.nonderived_bodies():
+        if b.id not in live:
+            continue    # dead code
         for i, blk in enumerate(b.blocks):
             for st_ in blk["stmts"]:
                 if st_["k"] != "assign":
